@@ -180,6 +180,8 @@ def main(tier):
                 {"kind": "pair", "rewrite": nm, "doc": m["doc"], "base": base, "variant": text,
                  "observed_base": a, "observed_variant": b, "signature": sig}, sig)
     lexical_pairs(chk, tier)
+    import fixrel
+    fixrel.c05(chk, tier)
     if docs:
         chk.sample({"doc": docs[0]["doc"], "rewritings": REWRITES})
     chk.rule = ("pairs (canonical rendering, rewritten rendering) of TLC-generated valid API documents; rewritings: "
@@ -192,6 +194,9 @@ def main(tier):
 
 def replay(path):
     rp = json.load(open(path))["replay"]
+    if rp.get("kind") in ("fxpair", "fxban"):
+        import fixrel
+        return fixrel.replay("C05", rp)
     chk = Check("C05", "quick")
     if rp["kind"] == "lexpair":
         from common import b64
